@@ -1420,4 +1420,228 @@ Proof.
   destruct (G6 F) as [-> [-> ->]]. rewrite Hparse, F. reflexivity.
 Qed.
 
+(* ================= read schedules ================= *)
+Lemma settle_eq_final a b : no00 a -> no00 b -> settle a = settle b ->
+  is_final a = is_final b /\ (is_final a = true -> a = b).
+Proof.
+  intros Ha Hb E.
+  assert (F : is_final a = is_final b).
+  { rewrite <- (settle_final a Ha), <- (settle_final b Hb), E. reflexivity. }
+  split; [exact F|]. intros Fa. assert (Fb : is_final b = true) by (rewrite <- F; exact Fa).
+  rewrite <- (settle_final_id a Fa), <- (settle_final_id b Fb). exact E.
+Qed.
+
+Lemma final_absorbs s x : is_final s = true -> drive_all norm maxc s x = DOk x s [].
+Proof.
+  intros F. unfold drive_all. destruct (drive_fuel_S x) as [f ->]. cbn [drive]. rewrite F. reflexivity.
+Qed.
+
+Lemma canon_final T l h s0 o : bytes_ok (T ++ l) -> len (T ++ l) < SIZE_LIMIT ->
+  drive_all norm maxc Header T = DOk h s0 o -> is_final s0 = true ->
+  drive_all norm maxc Header (T ++ l) = DOk (h ++ l) s0 o.
+Proof.
+  intros Hok Hsz E F. destruct l as [|b l'].
+  - rewrite !app_nil_r. exact E.
+  - apply bytes_ok_app in Hok as [Hok1 Hok2].
+    rewrite (drive_additive' Header T (b :: l') ltac:(discriminate) I Hok1 Hok2 Hsz).
+    rewrite E, (final_absorbs s0 _ F), app_nil_r. reflexivity.
+Qed.
+
+(* the state of a schedule run that has fed the prefix Q of the wire and is not done *)
+Definition sinv (C : N) (wire : bytes) (p : parser) (u out Q : bytes) : Prop :=
+  wire = Q ++ u /\ parser_ok p /\ cap p = C /\ is_final (st p) = false /\ no00 (st p) /\
+  len (held p) < C /\
+  (exists s0, drive_all norm maxc Header Q = DOk (held p) s0 out /\ settle s0 = settle (st p)) /\
+  drive_all norm maxc (st p) (held p) = DOk (held p) (settle (st p)) [].
+
+(* the result of a schedule run that ended having fed the prefix T *)
+Definition sfin (C : N) (wire : bytes) (p' : parser) (d : bool) (u' o' T : bytes) : Prop :=
+  wire = T ++ u' /\ parser_ok p' /\
+  exists s0, drive_all norm maxc Header T = DOk (held p') s0 o' /\ no00 s0 /\
+    ((d = false /\ u' = [] /\ settle s0 = settle (st p') /\ is_final (st p') = false /\
+      no00 (st p') /\ len (held p') < C) \/
+     (d = true /\ is_final s0 = true /\ st p' = s0) \/
+     (d = true /\ is_final s0 = false /\ len (held p') = C /\ st p' = Fatal EStuckOnInput)).
+
+Definition stuck_at (C : N) (W : bytes) : Prop :=
+  exists h sW oW, drive_all norm maxc Header W = DOk h sW oW /\ is_final sW = false /\ len h = C.
+
+Lemma sched_step C wire p u out Q n : bytes_ok wire -> len wire < SIZE_LIMIT ->
+  sinv C wire p u out Q -> n <= input_space p -> n <= len u ->
+  exists rest s' o s0',
+    parse norm maxc p (take n u) =
+      (if negb (is_final s') && (len rest =? C)
+       then POk (mkParser C rest (Fatal EStuckOnInput)) true o
+       else POk (mkParser C rest s') (is_final s') o) /\
+    drive_all norm maxc Header (Q ++ take n u) = DOk rest s0' (out ++ o) /\ sgood s0' /\
+    settle s0' = settle s' /\ sgood s' /\ bytes_ok rest /\ len rest <= C /\
+    drive_all norm maxc s' rest = DOk rest (settle s') [].
+Proof.
+  intros Hwok Hwsz [Hw [Hp [Hcap [Hnf [Hn0 [Hroom [[s0 [Hcanon Hset]] Hquiet]]]]]]] Hn1 Hn2.
+  assert (HokQu : bytes_ok Q /\ bytes_ok u) by (apply bytes_ok_app; rewrite <- Hw; exact Hwok).
+  destruct HokQu as [HokQ Hoku].
+  assert (Hlw : len wire = len Q + len u) by (rewrite Hw; apply len_app).
+  assert (Hokx : bytes_ok (take n u)) by (apply bytes_ok_take; exact Hoku).
+  assert (Hlx : len (take n u) = n) by (rewrite len_take; lia).
+  destruct (parse_spec p (take n u) Hp Hokx ltac:(lia)) as [rest [s' [o [E [G1 [G2 [G3 [G4 [G5 [_ Hparse]]]]]]]]]].
+  destruct (drive_all_ok Header Q I HokQ ltac:(lia)) as [r0 [s00 [o00 [E0 [G0 _]]]]].
+  rewrite Hcanon in E0. inversion E0; subst r0 s00 o00. clear E0.
+  pose proof Hp as [Hs [_ [Hh [Hc Hcapr]]]].
+  assert (Hokd : bytes_ok (held p ++ take n u)) by (apply bytes_ok_app; split; assumption).
+  assert (Hszd : len (held p ++ take n u) < SIZE_LIMIT).
+  { rewrite len_app. unfold input_space in Hn1. lia. }
+  pose proof (drive_all_requiesce _ _ _ _ _ Hs Hokd Hszd E) as Hq'.
+  rewrite Hcap in *.
+  destruct (take n u) as [|b x'] eqn:Ex.
+  - rewrite app_nil_r in *. rewrite Hquiet in E. inversion E; subst rest s' o.
+    exists (held p), (settle (st p)), [], s0. rewrite app_nil_r.
+    split; [exact Hparse|]. split; [exact Hcanon|]. split; [exact G0|].
+    split; [rewrite settle_idem; exact Hset|]. split; [exact G1|]. split; [exact G3|].
+    split; [exact G5|exact Hq'].
+  - exists rest, s', o, s'.
+    split; [exact Hparse|]. split.
+    { rewrite (drive_additive' Header Q (b :: x') ltac:(discriminate) I HokQ Hokx).
+      2:{ rewrite len_app, Hlx. lia. }
+      rewrite Hcanon.
+      assert (Hne : held p ++ b :: x' <> []) by (destruct (held p); discriminate).
+      assert (D1 : drive_all norm maxc (settle s0) (held p ++ b :: x') =
+                   drive_all norm maxc s0 (held p ++ b :: x')).
+      { apply drive_settle_nonempty; [apply G0|exact Hokd|exact Hszd|exact Hne]. }
+      assert (D2 : drive_all norm maxc (settle (st p)) (held p ++ b :: x') =
+                   drive_all norm maxc (st p) (held p ++ b :: x')).
+      { apply drive_settle_nonempty; [exact Hs|exact Hokd|exact Hszd|exact Hne]. }
+      rewrite <- D1, Hset, D2, E. reflexivity. }
+    split; [exact G1|]. split; [reflexivity|]. split; [exact G1|]. split; [exact G3|].
+    split; [exact G5|exact Hq'].
+Qed.
+
+Lemma no_jump C wire p u out Q n y z : bytes_ok wire -> len wire < SIZE_LIMIT ->
+  sinv C wire p u out Q -> n <= input_space p -> n <= len u ->
+  wire = (Q ++ y) ++ z -> stuck_at C (Q ++ y) ->
+  Q ++ y = (Q ++ take n u) ++ drop n y.
+Proof.
+  intros Hwok Hwsz [Hw [Hp [Hcap [Hnf [Hn0 [Hroom [[s0 [Hcanon Hset]] Hquiet]]]]]]] Hn1 Hn2 Hwy
+         [h [sW [oW [EW [FW LW]]]]].
+  assert (Hu : u = y ++ z).
+  { apply (app_inv_head Q). rewrite <- Hw, Hwy, app_assoc. reflexivity. }
+  assert (Hok3 : bytes_ok Q /\ bytes_ok y /\ bytes_ok z).
+  { rewrite Hwy in Hwok. apply bytes_ok_app in Hwok as [H1 H2]. apply bytes_ok_app in H1. tauto. }
+  destruct Hok3 as [HokQ [Hoky Hokz]].
+  assert (Hlw : len wire = len Q + len y + len z) by (rewrite Hwy, !len_app; reflexivity).
+  assert (Hny : n <= len y).
+  { destruct y as [|b y'].
+    - rewrite app_nil_r in EW. rewrite Hcanon in EW. inversion EW; subst. lia.
+    - rewrite (drive_additive' Header Q (b :: y') ltac:(discriminate) I HokQ Hoky) in EW
+        by (rewrite len_app; lia).
+      rewrite Hcanon in EW.
+      destruct (drive_all_ok Header Q I HokQ ltac:(lia)) as [r0 [s00 [o00 [E0 [G0 [_ [Gs _]]]]]]].
+      rewrite Hcanon in E0. inversion E0; subst r0 s00 o00.
+      pose proof (suffix_len _ _ Gs) as Hlh.
+      assert (Hokd : bytes_ok (held p ++ b :: y')).
+      { apply bytes_ok_app. split; [eapply suffix_ok; eassumption|exact Hoky]. }
+      destruct (drive_all_ok s0 (held p ++ b :: y') (proj1 G0) Hokd ltac:(rewrite len_app; lia))
+        as [r2 [s2 [o2 [E2 [_ [_ [G2 _]]]]]]].
+      rewrite E2 in EW. inversion EW; subst. apply suffix_len in G2. rewrite len_app in G2.
+      unfold input_space in Hn1. lia. }
+  rewrite Hu. rewrite take_app_le by exact Hny. rewrite <- app_assoc, take_drop. reflexivity.
+Qed.
+
+Definition sched_n (p : parser) (wire : bytes) (sched : list N) : N :=
+  match sched with
+  | c :: _ => N.min c (N.min (input_space p) (len wire))
+  | [] => N.min (input_space p) (len wire)
+  end.
+
+Lemma run_sched_S f p wire sched out :
+  run_sched norm maxc (S f) p wire sched out =
+    if match sched with [] => sched_n p wire sched =? 0 | _ => false end
+    then SOk p false wire out
+    else match parse norm maxc p (take (sched_n p wire sched) wire) with
+         | PPanic _ => SPanic
+         | POk p' done o =>
+           if done then SOk p' true (drop (sched_n p wire sched) wire) (out ++ o)
+           else run_sched norm maxc f p' (drop (sched_n p wire sched) wire) (tl sched) (out ++ o)
+         end.
+Proof.
+  cbn [run_sched]. unfold sched_n. destruct sched as [|c t]; [|reflexivity].
+  destruct (N.min (input_space p) (len wire)); reflexivity.
+Qed.
+
+Lemma run_sched_inv C wire : bytes_ok wire -> len wire < SIZE_LIMIT ->
+  forall fuel p u sched out Q, sinv C wire p u out Q -> (length u + length sched < fuel)%nat ->
+  exists p' d u' o' T, run_sched norm maxc fuel p u sched out = SOk p' d u' o' /\
+    sfin C wire p' d u' o' T /\ (exists y, T = Q ++ y) /\
+    (forall y z, wire = (Q ++ y) ++ z -> stuck_at C (Q ++ y) -> exists y', Q ++ y = T ++ y').
+Proof.
+  intros Hwok Hwsz. induction fuel as [|f IH]; intros p u sched out Q Hinv Hfuel; [lia|].
+  rewrite run_sched_S. set (n := sched_n p u sched).
+  pose proof Hinv as [Hw [Hp [Hcap [Hnf [Hn0 [Hroom [[s0 [Hcanon Hset]] Hquiet]]]]]]].
+  assert (Hsp : input_space p = C - len (held p)) by (unfold input_space; rewrite Hcap; reflexivity).
+  assert (Hn1 : n <= input_space p) by (unfold n, sched_n; destruct sched; lia).
+  assert (Hn2 : n <= len u) by (unfold n, sched_n; destruct sched; lia).
+  assert (HokQ : bytes_ok Q) by (rewrite Hw in Hwok; apply bytes_ok_app in Hwok; tauto).
+  assert (Hlw : len wire = len Q + len u) by (rewrite Hw; apply len_app).
+  destruct (drive_all_ok Header Q I HokQ ltac:(lia)) as [r0 [s00 [o00 [E0 [G0 _]]]]].
+  rewrite Hcanon in E0. inversion E0; subst r0 s00 o00. clear E0.
+  assert (Hcase : (sched = [] /\ n = 0) \/
+                  ((match sched with [] => n =? 0 | _ => false end) = false /\
+                   (length (drop n u) + length (tl sched) < f)%nat)).
+  { assert (Hld : length (drop n u) = (length u - N.to_nat n)%nat) by (unfold drop; apply skipn_length).
+    destruct sched as [|c t].
+    - destruct (N.eqb_spec n 0) as [Hz|Hz]; [left; split; [reflexivity|exact Hz]|right].
+      split; [reflexivity|]. cbn [tl length] in *. unfold len in Hn2. lia.
+    - right. split; [reflexivity|]. cbn [tl length] in *. lia. }
+  destruct Hcase as [[Hs Hz]|[Hcond Hprog]].
+  - (* schedule exhausted and nothing left to feed *)
+    subst sched. rewrite Hz. change (0 =? 0) with true. cbv iota.
+    assert (Hu : u = []).
+    { apply len_zero_nil. unfold n, sched_n in Hz. lia. }
+    exists p, false, u, out, Q. split; [reflexivity|]. split.
+    + split; [exact Hw|]. split; [exact Hp|]. exists s0. split; [exact Hcanon|]. split; [apply G0|].
+      left. repeat split; assumption.
+    + split; [exists []; rewrite app_nil_r; reflexivity|]. intros y z _ _. exists y. reflexivity.
+  - rewrite Hcond.
+    destruct (sched_step C wire p u out Q n Hwok Hwsz Hinv Hn1 Hn2)
+      as [rest [s' [o [s0' [Hparse [Hcanon' [G0' [Hset' [G1 [G3 [G5 Hq']]]]]]]]]]].
+    assert (Hw' : wire = (Q ++ take n u) ++ drop n u) by (rewrite <- app_assoc, take_drop; exact Hw).
+    assert (Hjump : forall y z, wire = (Q ++ y) ++ z -> stuck_at C (Q ++ y) ->
+                      Q ++ y = (Q ++ take n u) ++ drop n y).
+    { intros y z Hy Hst. exact (no_jump C wire p u out Q n y z Hwok Hwsz Hinv Hn1 Hn2 Hy Hst). }
+    pose proof Hp as [_ [_ [_ [_ Hcapr]]]]. rewrite Hcap in Hcapr.
+    destruct (settle_eq_final s0' s' (proj2 G0') (proj2 G1) Hset') as [Hfin Hfineq].
+    rewrite Hparse.
+    destruct (is_final s') eqn:F; cbn [negb andb].
+    + (* done: final state *)
+      exists (mkParser C rest s'), true, (drop n u), (out ++ o), (Q ++ take n u).
+      split; [reflexivity|]. split.
+      * split; [exact Hw'|]. split.
+        { split; [apply G1|]. split; [apply state_ok_small; apply G1|]. cbn [held cap].
+          split; [exact G3|]. split; [exact G5|exact Hcapr]. }
+        exists s0'. cbn [held st]. split; [exact Hcanon'|]. split; [apply G0'|].
+        right. left. split; [reflexivity|]. split; [exact Hfin|]. symmetry. apply Hfineq. exact Hfin.
+      * split; [exists (take n u); reflexivity|]. intros y z Hy Hst. exists (drop n y). eapply Hjump; eassumption.
+    + destruct (N.eqb_spec (len rest) C) as [Heq|Hne].
+      * (* done: stuck *)
+        exists (mkParser C rest (Fatal EStuckOnInput)), true, (drop n u), (out ++ o), (Q ++ take n u).
+        split; [reflexivity|]. split.
+        -- split; [exact Hw'|]. split.
+           { split; [exact I|]. split; [exact I|]. cbn [held cap].
+             split; [exact G3|]. split; [exact G5|exact Hcapr]. }
+           exists s0'. cbn [held st]. split; [exact Hcanon'|]. split; [apply G0'|].
+           right. right. split; [reflexivity|]. split; [exact Hfin|]. split; [exact Heq|reflexivity].
+        -- split; [exists (take n u); reflexivity|]. intros y z Hy Hst. exists (drop n y). eapply Hjump; eassumption.
+      * (* not done: go on *)
+        assert (Hinv' : sinv C wire (mkParser C rest s') (drop n u) (out ++ o) (Q ++ take n u)).
+        { split; [exact Hw'|]. split.
+          { split; [apply G1|]. split; [apply state_ok_small; apply G1|]. cbn [held cap].
+            split; [exact G3|]. split; [exact G5|exact Hcapr]. }
+          cbn [held st cap]. split; [reflexivity|]. split; [exact F|]. split; [apply G1|].
+          split; [lia|]. split; [exists s0'; split; [exact Hcanon'|exact Hset']|exact Hq']. }
+        destruct (IH _ _ (tl sched) _ _ Hinv' Hprog) as [p' [d [u' [o' [T [Hrun [Hfinl [[y0 Hy0] Hst]]]]]]]].
+        exists p', d, u', o', T. split; [exact Hrun|]. split; [exact Hfinl|].
+        split; [exists (take n u ++ y0); rewrite Hy0, app_assoc; reflexivity|].
+        intros y z Hy Hsty. pose proof (Hjump y z Hy Hsty) as Hj.
+        rewrite Hj. apply (Hst (drop n y) z); rewrite <- Hj; assumption.
+Qed.
+
 End Drive.
